@@ -6235,6 +6235,13 @@ mz_bool mz_zip_writer_add_mem_ex_v2(mz_zip_archive * pZip, const char * pArchive
 	level = level_and_flags & 0xF;
 	store_data_uncompressed = ((!level) || (level_and_flags & MZ_ZIP_FLAG_COMPRESSED_DATA));
 
+	if ((!(level_and_flags & MZ_ZIP_FLAG_COMPRESSED_DATA)) && (buf_size <= 3)) {
+		// Tiny buffers are stored -- this has to be known before the method
+		// is chosen and written into the local header (see below)
+		level = 0;
+		store_data_uncompressed = MZ_TRUE;
+	}
+
 	if ((!pZip) || (!pZip->m_pState) || (pZip->m_zip_mode != MZ_ZIP_MODE_WRITING) || ((buf_size) && (!pBuf)) || (!pArchive_name) || ((comment_size) && (!pComment)) || (level > MZ_UBER_COMPRESSION)) {
 		return mz_zip_set_error(pZip, MZ_ZIP_INVALID_PARAMETER);
 	}
